@@ -13,6 +13,7 @@ the result by |alpha| (bit-for-bit for powers of two), a held result is unchange
 """
 import copy
 import math
+import pickle
 import weakref
 
 import numpy as np
@@ -586,9 +587,14 @@ def _post_prop(self, result, st):
     if rec is None:
         ctx.observe('property-read-without-monitored-generation')
         return
-    if self._fa_spectrum is not rec['fa_obj'] or self._smooth_fa_freqs is not rec['tg_obj'] or (was_cached and not st['cached_fa']):
+    if rec.get('stale') or self._fa_spectrum is not rec['fa_obj'] or self._smooth_fa_freqs is not rec['tg_obj']:
         ctx.observe('cached-read-after-state-change(C04 territory)')
         return
+    if was_cached and not st['cached_fa']:
+        # the object serves a smoothed spectrum although it holds no Fourier spectrum (unreachable through the public
+        # operations of the class: clear_cache drops both; reachable through a copy protocol that drops the derived arrays
+        # but keeps the flag): it is judged against the dt x DFT of the object's OWN record like any other read
+        ctx.observe('cached-read-without-fourier-cache(judged against the own record)')
     band = rec['band'] if was_cached else 40          # an uncached read generates with the documented default band
     ent = _entry_fa(st)
     if ent is None:
@@ -605,6 +611,71 @@ def _post_prop(self, result, st):
               lambda: _wit(at, raw, got=gsub, expected=ref, band=band, was_cached=was_cached),
               'Signal.smooth_fa_spectrum (band=%r, cached before=%r): %s' % (band, was_cached, desc))
     ctx.observe('property-read-cached' if was_cached else 'property-read-uncached')
+
+
+def adopt(new, src):
+    """Harness book-keeping for an object made from src by a Python object protocol (copy.copy / copy.deepcopy / pickle):
+    the band of the last monitored generation travels with the copy (the object itself does not store it), so that a read of
+    the copy's smoothed spectrum is judged like a read of the original: against the copy's OWN Fourier cache at call entry
+    or, when it holds none, the dt x DFT of its own record. A source whose smoothed cache was already out of step with its
+    Fourier cache (explicit Fourier regeneration, C04 territory) hands that status on."""
+    rec = _GEN.get(src)
+    if rec is None:
+        return
+    stale = bool(rec.get('stale')) or src._fa_spectrum is not rec['fa_obj'] or src._smooth_fa_freqs is not rec['tg_obj']
+    _GEN[new] = dict(rec, fa_obj=getattr(new, '_fa_spectrum', None), tg_obj=getattr(new, '_smooth_fa_freqs', None), stale=stale)
+
+
+PENDING_REFUSED = 'pending-finding: refused gen_smooth_fa_spectrum keeps the rejected smooth_fa_freqs (old cached spectrum still served)'
+_TAINT = weakref.WeakKeyDictionary()       # Signal -> smoothing frequencies it held before a refused call replaced them
+
+
+def _refused_state(ctx, at, asig, st, raw, exc, may_generate):
+    """After a call RAISED: the object is as it was at entry (lazily filled caches apart), or its smoothed cache is
+    invalidated as a whole - never new smoothing frequencies next to the spectrum of the old ones."""
+    bad = _sig_changed(asig, st, may_generate and not st['cached_s'], False)
+    rec = _GEN.get(asig)
+    if asig._cached_smooth_fa and not st['cached_s'] and not (rec is not None and rec['serial'] > st['serial']):
+        bad.append('validity flag of the smoothed spectrum (set although no generation completed)')
+    ctx.observe('refused-calls:%s' % at)
+    return bad
+
+
+def _onex_gen_smooth(args, kwargs, exc, pre):
+    ctx = CTX
+    self = args[0]
+    st = pre['st']
+    given = pre['given'][0]
+    at = 'Signal.gen_smooth_fa_spectrum(raised %s)' % type(exc).__name__
+    raw = _raw_sig(st, None, how='gen_arg-refused')
+    bad = _refused_state(ctx, at, self, st, raw, exc, False)
+    if given is not None and self._smooth_fa_freqs is given and not isinstance(given, np.ndarray) \
+            and bad == ['smoothing frequencies'] and isinstance(exc, TypeError):
+        # mechanism observed on the unchanged tree: the argument is stored before it is validated. Reported; undecided.
+        ctx.observe(PENDING_REFUSED)
+        _TAINT[self] = st['tg']
+        return
+    ctx.check(not bad, 'refused-call.object-as-it-was', lambda: _wit(at, raw, changed=bad, exception=repr(exc)),
+              '%s and left %s of the object changed' % (at, bad))
+
+
+def _onex_sig_fn(who):
+    def onex(args, kwargs, exc, pre):
+        asig = args[0] if args else kwargs.get('asig')
+        if not _is_sig(asig) or not pre or id(asig) not in pre:
+            return
+        st = pre[id(asig)][1]
+        at = '%s(raised %s)' % (who, type(exc).__name__)
+        raw = _raw_sig(st, None, band_fn=who)
+        rec = _GEN.get(asig)
+        extra = []
+        if not st['cached_s'] and asig._cached_smooth_fa and rec is not None and rec['serial'] > st['serial'] \
+                and not _same(np.asarray(asig._smooth_fa_spectrum), rec['result']):
+            extra.append('the smoothed spectrum after generating it')
+        bad = _refused_state(CTX, at, asig, st, raw, exc, True) + extra
+        CTX.check(not bad, 'refused-call.object-as-it-was', lambda: _wit(at, raw, changed=bad, exception=repr(exc)),
+                  '%s and left %s of the object changed' % (at, bad))
+    return onex
 
 
 def _check_band(ctx, who, asig, pre, ratio, ratio_eff, lo, hi, prefix):
@@ -741,18 +812,21 @@ def install(ctx):
     attach.wrap(fr, 'calc_smooth_fa_spectrum', _post_calc, pre=_pre_fn)
     attach.wrap(fr, 'generate_smooth_fa_spectrum', _post_generate, pre=_pre_fn)
     attach.wrap(fr, 'calc_smoothing_matrix_konno_1998', _post_matrix, pre=_pre_fn)
-    attach.wrap(fr, 'calc_smooth_fa_spectrum_w_custom_matrix', _post_custom, pre=_pre_fn)
-    attach.wrap(fr, 'get_sig_freq_range', _post_sigrange, pre=_pre_fn)
-    attach.wrap(eqsig.im, 'calc_bandwidth_freqs', _post_bw_freqs, pre=_pre_fn)
-    attach.wrap(eqsig.im, 'calc_bandwidth_f_min', _post_bw_fmin, pre=_pre_fn)
-    attach.wrap(eqsig.im, 'calc_bandwidth_f_max', _post_bw_fmax, pre=_pre_fn)
-    attach.wrap_method(eqsig.single.Signal, 'gen_smooth_fa_spectrum', _post_gen_smooth, pre=_pre_gen_smooth)
+    attach.wrap(fr, 'calc_smooth_fa_spectrum_w_custom_matrix', _post_custom, pre=_pre_fn,
+                on_exception=_onex_sig_fn('calc_smooth_fa_spectrum_w_custom_matrix'))
+    attach.wrap(fr, 'get_sig_freq_range', _post_sigrange, pre=_pre_fn, on_exception=_onex_sig_fn('get_sig_freq_range'))
+    attach.wrap(eqsig.im, 'calc_bandwidth_freqs', _post_bw_freqs, pre=_pre_fn, on_exception=_onex_sig_fn('calc_bandwidth_freqs'))
+    attach.wrap(eqsig.im, 'calc_bandwidth_f_min', _post_bw_fmin, pre=_pre_fn, on_exception=_onex_sig_fn('calc_bandwidth_f_min'))
+    attach.wrap(eqsig.im, 'calc_bandwidth_f_max', _post_bw_fmax, pre=_pre_fn, on_exception=_onex_sig_fn('calc_bandwidth_f_max'))
+    attach.wrap_method(eqsig.single.Signal, 'gen_smooth_fa_spectrum', _post_gen_smooth, pre=_pre_gen_smooth,
+                       on_exception=_onex_gen_smooth)
     attach.wrap_method(eqsig.single.Signal, 'generate_smooth_fa_spectrum', _post_generate_method, pre=_pre_generate_method)
     _wrap_property(eqsig.single.Signal, 'smooth_fa_spectrum', _pre_prop, _post_prop)
 
 
 # ------------------------------------------------------------------------------------------------ workload: generators
 BANDS = [5, 10, 20, 40, 100]
+BAND_EDGES = [float(np.nextafter(5.0, 6.0)), 5.0 + 1e-9, 5.0005, 5.004, 99.92, 99.9995, 100.0 - 1e-9, float(np.nextafter(100.0, 0.0))]
 TARGET_SIZES = [1, 1, 2, 2, 31, 32, 33, 63, 64, 65, 127, 128, 129, 256]
 POW2_NEIGHBOURS = [3, 4, 5, 7, 8, 9, 15, 16, 17, 31, 32, 33, 63, 64, 65, 127, 128, 129, 255, 256, 257, 511, 512, 513]
 INT_DTYPES = ['int64', 'int32', 'int16', 'int8', 'uint8', 'uint16']
@@ -765,6 +839,8 @@ def draw_band(rng):
     if u < 0.12:
         return None, 'py'
     form = ['py', 'py', 'py', 'np64', 'npint', '0d'][int(rng.integers(6))]
+    if u < 0.20:
+        return BAND_EDGES[int(rng.integers(len(BAND_EDGES)))], form          # within 1e-3 (relative) of the ends of [5, 100]
     if u < 0.55:
         b = BANDS[int(rng.integers(len(BANDS)))]
         return (b if rng.random() < 0.5 else float(b)), form
@@ -837,6 +913,13 @@ def draw_record(rng, n):
         if sfx:
             return y, cls + sfx + '/extreme-scale'
     u = rng.random()
+    if u > 0.985:
+        return np.zeros(n), 'silent(all-zero)'
+    if u > 0.955:
+        # strictly one-signed: no zero sample, no sign change
+        m = float(np.max(np.abs(x))) or 1.0
+        sgn = 1.0 if u > 0.97 else -1.0
+        return sgn * (np.abs(x) + m * float(rng.choice([1e-3, 0.1, 2.0]))), 'one-signed(%s)+%s' % ('pos' if sgn > 0 else 'neg', cls)
     if u < 0.15:
         x = x * float(10 ** rng.uniform(-12, 12))
         cls += '*wide-scale'
@@ -943,7 +1026,7 @@ def int_spectrum(rng, points, dtype, with_min=False):
 
 
 SYNTH = ['const', 'spike', 'spike-dyn', 'spike-dyn', 'decay', 'max-first', 'max-last', 'plateau-ends', 'signed', 'complex', 'c64', 'f32', 'loggrid',
-         'int', 'int', 'int-small']
+         'int', 'int', 'int-small', 'one-signed-or-silent']
 
 
 def gen_func_case(rng, long_n=None):
@@ -1034,6 +1117,14 @@ def gen_func_case(rng, long_n=None):
                 src += ':with-dtype-min'
         elif src == 'int-small':
             spec = rng.integers(-9, 10, size=points).astype(np.int64)
+        elif src == 'one-signed-or-silent':
+            v = int(rng.integers(4))
+            if v == 0:
+                spec, src = np.zeros(points), 'silent(all-zero spectrum)'
+            elif v == 1:
+                spec, src = np.zeros(points, dtype=np.int64), 'silent(all-zero int spectrum)'
+            else:
+                spec, src = -(np.abs(rng.normal(size=points)) + 0.05) * amp, 'one-signed(neg)'
         else:
             spec = np.abs(rng.normal(size=points)) * amp
     with_zero = bool(rng.random() < 0.5)
@@ -1136,7 +1227,8 @@ def draw_ratio(rng):
     if u < 0.25:
         return None
     if u < 0.40:
-        return float(rng.choice([0.0, 1e-300, 1e-12, 0.01, 0.999999, 1 - 1e-12, float(np.nextafter(1.0, 0.0))]))
+        return float(rng.choice([0.0, 1e-300, 1e-12, 0.01, 0.999999, 1 - 1e-12, float(np.nextafter(1.0, 0.0)),
+                                 1e-3, 5e-4, 1e-6, 0.999, 0.9995]))
     return float(rng.choice([0.5, 0.9, 0.25, float(rng.uniform(0.05, 0.98))]))
 
 
@@ -1145,7 +1237,7 @@ def draw_sig_ratio(rng):
     if u < 0.25:
         return None
     if u < 0.35:
-        return float(rng.choice([1.0 + 1e-9, 1 + 1e-12, float(np.nextafter(1.0, 2.0)), 1e12, 1e300]))
+        return float(rng.choice([1.0 + 1e-9, 1 + 1e-12, float(np.nextafter(1.0, 2.0)), 1e12, 1e300, 1.001, 1.0005, 1000.0, 2000.0]))
     return float(rng.choice([2.0, 4.0, 100.0, float(rng.uniform(1.2, 50))]))
 
 
@@ -1207,7 +1299,51 @@ def gen_signal_case(rng, long_n=None, default_targets=False):
 
 HIST_OPS = ['read', 'read', 'gen', 'gen', 'generate', 'set', 'set', 'by_range', 'dep_range', 'dep_points', 'reset', 'reset',
             'add_constant', 'add_series', 'remove_average', 'remove_poly', 'butter', 'gen_fa', 'clear_cache', 'bw', 'bw',
-            'custom', 'calc_on_own', 'twin']
+            'custom', 'calc_on_own', 'twin', 'twin', 'swap', 'swap', 'assign', 'refused', 'reset_nonfinite']
+TWIN_HOWS = ['ctor-from-values', 'reset-from-values', 'same-caller-array', 'deepcopy', 'deepcopy+mutate', 'interp', 'fas2signal',
+             'pickle', 'pickle-p2', 'deepcopy-of-deepcopy']
+REFUSED = ['gen-list', 'gen-band-str', 'custom-wrong-shape', 'bw-ratio-1', 'add_series-wrong-length']
+SMALL_FORMS = [None, 'list', 'tuple', 'list', 'tuple', 'intlist']
+
+
+def small_targets(rng, grid):
+    """1, 2 or 3 smoothing frequencies (a 2-tuple must not be taken for a (min, max) range), ascending."""
+    k = int(rng.integers(1, 4))
+    lo, hi = np.log10(float(grid[0])), np.log10(float(grid[-1]))
+    if not hi > lo:
+        lo, hi = lo - 0.3, lo + 0.3
+    t = np.sort(10 ** rng.uniform(lo, hi, size=k))
+    if rng.random() < 0.3:
+        t[0] = float(grid[int(rng.integers(len(grid)))])
+        t = np.sort(t)
+    return t
+
+
+def fill_op(rng, op, n, grid):
+    """Parameters of the history operations that were added in round 3."""
+    name = op['op']
+    if name == 'assign':
+        op['attr'] = ['values', 'values', 'dt', 'npts', 'label'][int(rng.integers(5))]
+        if op['attr'] == 'values':
+            m = [n, max(3, n // 2), n + int(rng.integers(1, 40))][int(rng.integers(3))]
+            op['values'], _rc = draw_record(rng, m)
+            op['form'] = draw_value_form(rng, _rc)
+        else:
+            op['value'] = {'dt': float(10 ** rng.uniform(-3, 0)), 'npts': int(rng.integers(3, 600)), 'label': 'renamed'}[op['attr']]
+    elif name == 'refused':
+        op['kind'] = REFUSED[int(rng.integers(len(REFUSED)))]
+        op['which'] = int(rng.integers(3))
+        if op['kind'] == 'gen-list':
+            op['targets'] = draw_targets(rng, grid[1:], allow_none=False, sort=True)[0]
+    elif name == 'reset_nonfinite':
+        op['at'] = float(rng.random())
+        op['value'] = [float('nan'), float('inf'), float('-inf')][int(rng.integers(3))]
+        op['shift'] = float(rng.choice([0.0, 0.0, 0.25]))
+    elif name == 'twin':
+        op['how'] = TWIN_HOWS[int(rng.integers(len(TWIN_HOWS)))]
+        op['switch'] = bool(rng.random() < 0.5)
+        op['then'] = ['read-copy', 'read-copy', 'read-orig-then-copy', 'read-copy-then-orig', 'none'][int(rng.integers(5))]
+    return op
 
 
 def gen_history_case(rng):
@@ -1227,9 +1363,13 @@ def gen_history_case(rng):
                 op['form'] = [None, 'readonly', 'stride2', 'reversed'][int(rng.integers(4))]
         elif name == 'set':
             op['via'] = ['smooth_fa_freqs', 'smooth_fa_frequencies'][int(rng.integers(2))]
-            if rng.random() < 0.15:
+            u_set = rng.random()
+            if u_set < 0.15:
                 op['form'] = 'fa_view'                    # a view of the object's own cached frequency array
                 op['step'] = int(rng.integers(1, 4))
+            elif u_set < 0.40:
+                op['targets'] = small_targets(rng, grid[1:])
+                op['form'] = SMALL_FORMS[int(rng.integers(len(SMALL_FORMS)))]
             else:
                 op['targets'] = draw_targets(rng, grid[1:], allow_none=False, sort=rng.random() < 0.8)[0]
                 op['form'] = draw_target_form(rng)
@@ -1264,13 +1404,107 @@ def gen_history_case(rng):
             op['seed'] = None if rng.random() < 0.6 else int(rng.integers(1 << 30))
             op['form'] = [None, 'f32', 'fortran', 'readonly', 'nested-list'][int(rng.integers(5))]
             op['style'] = ['pos', 'kw'][int(rng.integers(2))]
-        elif name == 'twin':
-            op['how'] = ['ctor-from-values', 'reset-from-values', 'same-caller-array', 'deepcopy', 'deepcopy+mutate', 'interp', 'fas2signal'][int(rng.integers(7))]
-            op['switch'] = bool(rng.random() < 0.5)
+        elif name in ('twin', 'assign', 'refused', 'reset_nonfinite'):
+            fill_op(rng, op, n, grid)
         ops.append(op)
     case = {'kind': 'history', 'cls': 'AccSignal' if rng.random() < 0.5 else 'Signal', 'values': x, 'dt': dt,
             'values_form': draw_value_form(rng, rcls), 'ops': ops}
     return case, 'history:%s' % rcls
+
+
+WARM_STATES = ['cold', 'fourier', 'smoothed', 'smoothed', 'gen-band', 'gen-band', 'gen-arg', 'bandwidth', 'custom', 'smoothed+targets-set',
+               'smoothed+reset', 'smoothed+fourier-regenerated', 'fourier(p2_plus)+smoothed', 'fourier(n)+smoothed', 'smoothed+cleared']
+PROTOCOL_NAMES = ['copy', 'deepcopy', 'deepcopy', 'deepcopy', 'pickle', 'pickle', 'pickle-p2', 'pickle-p0', 'deepcopy-of-copy',
+                  'pickle-of-deepcopy', 'deepcopy-of-deepcopy']
+
+
+def gen_protocol_case(rng):
+    """copy.copy / copy.deepcopy / pickle round trip of a Signal / AccSignal in one of its cache states, then reads, regenerations,
+    bandwidth calls and mutators on the copy AND on the original, in both orders (a history case with two live objects)."""
+    n = draw_n(rng)
+    dt = gen.dt(rng) if rng.random() < 0.8 else draw_dt(rng)
+    x, rcls = draw_record(rng, n)
+    grid, _ = fourier_grid(n, dt)
+    warm = WARM_STATES[int(rng.integers(len(WARM_STATES)))]
+    proto = PROTOCOL_NAMES[int(rng.integers(len(PROTOCOL_NAMES)))]
+    shallow = PROTOCOLS[proto][-1] == 'copy'
+
+    def op_set():
+        o = {'op': 'set', 'via': ['smooth_fa_freqs', 'smooth_fa_frequencies'][int(rng.integers(2))]}
+        if rng.random() < 0.3:
+            o['targets'], o['form'] = small_targets(rng, grid[1:]), SMALL_FORMS[int(rng.integers(len(SMALL_FORMS)))]
+        else:
+            o['targets'], o['form'] = draw_targets(rng, grid[1:], allow_none=False, sort=True)[0], draw_target_form(rng)
+        return o
+
+    def op_gen(with_targets=False):
+        b, bf = draw_band(rng)
+        o = {'op': 'gen', 'band': b, 'band_form': bf, 'style': ['pos', 'kw'][int(rng.integers(2))]}
+        if with_targets:
+            o['targets'] = draw_targets(rng, grid[1:], allow_none=False, sort=True)[0]
+            o['form'] = [None, 'readonly', 'stride2'][int(rng.integers(3))]
+        return o
+
+    def op_bw():
+        fn = ['freqs', 'f_min', 'f_max', 'sigrange'][int(rng.integers(4))]
+        return {'op': 'bw', 'fn': fn, 'ratio': draw_sig_ratio(rng) if fn == 'sigrange' else draw_ratio(rng),
+                'style': ['pos', 'kw', 'allkw'][int(rng.integers(3))]}
+
+    def op_reset():
+        m = [n, max(3, n // 2), n + int(rng.integers(1, 40))][int(rng.integers(3))]
+        v, rc = draw_record(rng, m)
+        return {'op': 'reset', 'values': v, 'form': draw_value_form(rng, rc)}
+
+    def op_gen_fa(explicit_n=False):
+        return {'op': 'gen_fa', 'p2_plus': int(rng.integers(1, 3)),
+                'n': (2 * int(rng.integers(n // 2 + 1, n + 20)) + int(rng.integers(0, 2))) if explicit_n else None}
+
+    ops = []
+    if rng.random() < 0.6:
+        ops.append(op_set())                 # otherwise the 50 default smoothing frequencies
+    ops += {'cold': [], 'fourier': [{'op': 'read_fa'}], 'smoothed': [{'op': 'read'}], 'gen-band': [op_gen()], 'gen-arg': [op_gen(True)],
+            'bandwidth': [op_bw()], 'custom': [{'op': 'custom', 'seed': None, 'form': None, 'style': 'pos'}],
+            'smoothed+targets-set': [{'op': 'read'}, op_set()], 'smoothed+reset': [op_gen(), op_reset()],
+            'smoothed+fourier-regenerated': [op_gen(), op_gen_fa(rng.random() < 0.5)],
+            'fourier(p2_plus)+smoothed': [op_gen_fa(), op_gen()], 'fourier(n)+smoothed': [op_gen_fa(True), {'op': 'read'}],
+            'smoothed+cleared': [{'op': 'read'}, {'op': 'clear_cache'}]}[warm]
+    first = ['read-copy', 'read-copy', 'read-orig-then-copy', 'read-copy-then-orig', 'none', 'none'][int(rng.integers(6))]
+    ops.append({'op': 'twin', 'how': proto, 'switch': bool(rng.random() < 0.5), 'then': first})
+    follow = ['read', 'read', 'read', 'bw', 'bw', 'gen', 'gen-arg', 'set', 'reset', 'reset', 'custom', 'calc_on_own', 'clear_cache', 'gen_fa', 'swap', 'swap',
+              'swap', 'twin']
+    if not shallow:
+        follow += ['add_constant', 'butter', 'remove_average', 'add_series']      # a shallow copy shares the value buffer: reset_values only
+    for _ in range(int(rng.integers(4, 10))):
+        name = follow[int(rng.integers(len(follow)))]
+        if name == 'bw':
+            ops.append(op_bw())
+        elif name in ('gen', 'gen-arg'):
+            ops.append(op_gen(name == 'gen-arg'))
+        elif name == 'set':
+            ops.append(op_set())
+        elif name == 'reset':
+            ops.append(op_reset())
+        elif name == 'custom':
+            ops.append({'op': 'custom', 'seed': None, 'form': None, 'style': ['pos', 'kw'][int(rng.integers(2))]})
+        elif name == 'gen_fa':
+            ops.append(op_gen_fa(rng.random() < 0.3))
+        elif name == 'add_constant':
+            ops.append({'op': 'add_constant', 'c': float(rng.normal() * 10 ** rng.uniform(-3, 3))})
+        elif name == 'add_series':
+            ops.append({'op': 'add_series', 'seed': int(rng.integers(1 << 30))})
+        elif name == 'butter':
+            lo = float(rng.uniform(0.02, 0.3))
+            ops.append({'op': 'butter', 'cut': (lo, float(rng.uniform(lo * 1.5, 0.9)))})
+        elif name == 'twin':
+            # a copy of the copy (or of the original) later in the history
+            ops.append({'op': 'twin', 'how': 'deepcopy' if shallow or rng.random() < 0.5 else 'pickle', 'switch': bool(rng.random() < 0.5),
+                        'then': ['read-copy', 'read-orig-then-copy', 'none'][int(rng.integers(3))]})
+        else:
+            ops.append({'op': name})
+    ops += [{'op': 'read'}, {'op': 'swap'}, {'op': 'read'}]          # both members are read at the end
+    case = {'kind': 'history', 'cls': 'AccSignal' if rng.random() < 0.5 else 'Signal', 'values': x, 'dt': dt,
+            'values_form': draw_value_form(rng, rcls), 'ops': ops, 'protocol': proto, 'warm': warm}
+    return case, 'protocol:%s:%s' % (proto, warm)
 
 
 # ------------------------------------------------------------------------------------------------ workload: drivers
@@ -1388,6 +1622,24 @@ def run_func_case(eqsig, ctx, c):
         ctx.check(np.asarray(held).tobytes() == base.tobytes(), 'state.held-result-unchanged',
                   lambda: _wit('state.held-result', first=base, now=np.asarray(held)),
                   'the result of the first call changed while a second input of the same shape was processed')
+    if not lng:
+        # results depend on the arguments only: after inputs of the same and of another shape the first input gives the first
+        # result again, bit for bit (at whatever band the case has)
+        fa_, sa_ = np.asarray(freqs), np.asarray(spec)
+        if len(fa_) >= 4:
+            k = len(fa_) - max(1, len(fa_) // 3)
+            _call(ctx, 'smooth==weighted-mean', 'calc_smooth_fa_spectrum', eqsig.calc_smooth_fa_spectrum,
+                  fa_[:k].copy(), sa_[:k][::-1].copy(), None if targets is None else np.array(targets, copy=True), **bkw)
+        if fa_.dtype == np.float64 and float(fa_[-1]) < 1e300:
+            # same shapes, another grid (a memo keyed on the shapes and the band would serve the first grid's weights)
+            _call(ctx, 'smooth==weighted-mean', 'calc_smooth_fa_spectrum', eqsig.calc_smooth_fa_spectrum,
+                  fa_ * 1.37, sa_[::-1].copy(), None if targets is None else np.array(targets, copy=True), **bkw)
+        ok, again = direct(spec)
+        if ok:
+            again = np.asarray(again)
+            ctx.check(again.dtype == base.dtype and again.shape == base.shape and again.tobytes() == base.tobytes(),
+                      'relation.repeat(A,B,A)==first', lambda: _wit('relation.repeat', first=base, third=again),
+                      'the same arguments gave a different result after other inputs had been processed in between')
     # matrix form
     if omit:
         ok, m = _call(ctx, 'matrix==window/sum', 'calc_smoothing_matrix_konno_1998', eqsig.calc_smoothing_matrix_konno_1998, freqs, **bkw)
@@ -1536,6 +1788,22 @@ def _rt_of(s):
     return rt, scale
 
 
+def _stored_targets(ctx, s, given, how):
+    """The target set of the statement is the one the caller gave (ctor keyword / setter, any container, 1-3 entries too):
+    the object holds exactly these frequencies, as float64, in the given order."""
+    try:
+        want = np.asarray(given, dtype=float)
+        now = np.asarray(s.smooth_fa_freqs)
+        ok = now.dtype == np.float64 and now.shape == want.shape and now.tobytes() == want.tobytes()
+    except Exception:       # noqa
+        ok, now, want = False, None, None
+    ctx.check(ok, 'targets.stored==given', lambda: _wit('smoothing frequencies via %s' % how, given=want, stored=now),
+              'smoothing frequencies given through %s (%s of %s entries) are stored as %r'
+              % (how, type(given).__name__, 'n/a' if want is None else want.size, None if now is None else now[:6]))
+    if want is not None and want.size <= 3:
+        ctx.observe('targets-of-%d-entries-as-%s' % (want.size, type(given).__name__))
+
+
 def run_signal_case(eqsig, ctx, c):
     cls = eqsig.AccSignal if c.get('cls') == 'AccSignal' else eqsig.Signal
     how, band = c.get('how', 'setter'), band_obj(c.get('band'), c.get('band_form', 'py'))
@@ -1569,6 +1837,8 @@ def run_signal_case(eqsig, ctx, c):
     except Exception as e:      # noqa
         ctx.exception('signal.smooth_fa_spectrum==weighted-mean', _wit('constructor'), e)
         return
+    if targets is not None and how in ('ctor', 'setter', 'setter_frequencies'):
+        _stored_targets(ctx, s, targets, how)
     if c.get('reject_probes'):
         _probe_rejected(ctx, 'gen_smooth_fa_spectrum(smooth_fa_freqs=list)',
                         lambda: cls(values, c['dt']).gen_smooth_fa_spectrum(smooth_fa_freqs=[1.0, 2.0, 3.0]))
@@ -1607,6 +1877,13 @@ def run_signal_case(eqsig, ctx, c):
             ctx.check(np.asarray(held).tobytes() == v.tobytes(), 'state.held-result-unchanged',
                       lambda: _wit('state.held-object-result', first=v, now=np.asarray(held)),
                       'the smoothed spectrum held from the first object changed while a second object was processed')
+            # f(A) again on a fresh object after B: same values, time step, targets and band -> the same spectrum, bit for bit
+            s3 = cls(values_in_form(c['values'], c.get('values_form')), c['dt'], smooth_fa_freqs=np.array(s.smooth_fa_freqs, copy=True))
+            s3.gen_smooth_fa_spectrum(band=b_eff)
+            third = np.asarray(s3.smooth_fa_spectrum)
+            ctx.check(third.shape == v.shape and third.tobytes() == v.tobytes(), 'relation.repeat(A,B,A)==first',
+                      lambda: _wit('relation.repeat(objects)', first=v, third=third),
+                      'a fresh object with the same record, targets and band gave a different smoothed spectrum after another record had been processed')
     except Exception as e:      # noqa
         ctx.exception('state.held-result-unchanged', _wit('second object'), e)
     # the function form on the object's own cached arrays (zero bin included)
@@ -1640,6 +1917,21 @@ def run_signal_case(eqsig, ctx, c):
               'caller arrays %s differ from their values before the first call of the case' % bad)
 
 
+# Python object protocols (name -> chain of steps applied to the live object)
+PROTOCOLS = {'copy': ('copy',), 'deepcopy': ('deepcopy',), 'pickle': ('p%d' % pickle.HIGHEST_PROTOCOL,), 'pickle-p2': ('p2',), 'pickle-p0': ('p0',),
+             'deepcopy-of-copy': ('copy', 'deepcopy'), 'pickle-of-deepcopy': ('deepcopy', 'p%d' % pickle.HIGHEST_PROTOCOL),
+             'deepcopy-of-deepcopy': ('deepcopy', 'deepcopy')}
+
+
+def _cache_state(s):
+    rec = _GEN.get(s)
+    if s._cached_smooth_fa:
+        if rec is not None and (rec.get('stale') or s._fa_spectrum is not rec['fa_obj'] or s._smooth_fa_freqs is not rec['tg_obj']):
+            return 'smoothed, then Fourier regenerated'
+        return 'warm: smoothed'
+    return 'Fourier only' if s._cached_fa else 'cold'
+
+
 def run_history_case(eqsig, ctx, c):
     cls = eqsig.AccSignal if c.get('cls') == 'AccSignal' else eqsig.Signal
     values = values_in_form(c['values'], c.get('values_form'))
@@ -1650,6 +1942,7 @@ def run_history_case(eqsig, ctx, c):
         ctx.exception('signal.smooth_fa_spectrum==weighted-mean', _wit('constructor'), e)
         return
     held = []          # (result object, copy) pairs of earlier reads
+    alt = None         # the other member of a (copy, original) pair: operations go to `s`, 'swap' exchanges the two
 
     def mutate(name, fn, *a, **k):
         try:
@@ -1667,6 +1960,68 @@ def run_history_case(eqsig, ctx, c):
             if ok:
                 held.append((r, np.array(r, copy=True)))
             ctx.observe('history-op:read')
+        elif name == 'swap':
+            if alt is not None:
+                s, alt = alt, s
+                ctx.observe('history-op:swap(copy <-> original)')
+        elif name == 'read_fa':
+            mutate('read fa_spectrum', lambda: s.fa_spectrum)
+        elif name == 'assign':
+            # assignment through a public attribute name after construction: honoured completely, ignored or refused - the
+            # reads that follow are judged against what the object then holds
+            attr = op['attr']
+            if attr == 'values':
+                val = values_in_form(op['values'], op.get('form'))
+                caller.append((val, _snap(val)))
+            else:
+                val = op['value']
+            try:
+                setattr(s, attr, val)
+                ctx.observe('assignment-accepted-or-ignored:%s' % attr)
+            except Exception as e:      # noqa
+                ctx.observe('assignment-refused:%s(%s)' % (attr, type(e).__name__))
+            ok, r = _call(ctx, 'signal.smooth_fa_spectrum==weighted-mean', 'Signal.smooth_fa_spectrum', lambda: s.smooth_fa_spectrum)
+            if ok:
+                held.append((r, np.array(r, copy=True)))
+        elif name == 'refused':
+            # an operation that raises must leave the object as it was (judged by the exception hooks of the monitors and here)
+            st0 = _sig_state(s)
+            kind = op['kind']
+            try:
+                if kind == 'gen-list':
+                    s.gen_smooth_fa_spectrum(smooth_fa_freqs=[float(v) for v in op['targets']])
+                elif kind == 'gen-band-str':
+                    s.gen_smooth_fa_spectrum(band='wide')
+                elif kind == 'custom-wrong-shape':
+                    eqsig.calc_smooth_fa_spectrum_w_custom_matrix(s, np.ones((len(s.fa_freqs) + 3, 2)))
+                elif kind == 'bw-ratio-1':
+                    if _smooth_ok_for_bandwidth(ctx, s):
+                        [eqsig.im.calc_bandwidth_freqs, eqsig.im.calc_bandwidth_f_min, eqsig.get_sig_freq_range][op.get('which', 0)](s, 1)
+                    else:
+                        raise IndexError('skipped')
+                else:
+                    s.add_series(np.ones(len(np.asarray(s.values)) + 1 + op.get('which', 0)))
+                ctx.observe('refused-op-accepted:%s' % kind)
+            except Exception as e:      # noqa
+                ctx.observe('history-op:refused:%s(%s)' % (kind, type(e).__name__))
+                if kind == 'add_series-wrong-length':
+                    bad = _sig_changed(s, st0, False, False)
+                    ctx.check(not bad, 'refused-call.object-as-it-was', lambda: _wit('Signal.add_series(raised)', _raw_sig(st0), changed=bad),
+                              'add_series with a wrong length raised and left %s of the object changed' % bad)
+            if _TAINT.get(s) is not None:
+                s.smooth_fa_freqs = _TAINT.pop(s)          # pending finding: put the object back into a usable state
+        elif name == 'reset_nonfinite':
+            # a non-finite record is accepted silently (outside the quantifier: counted by the monitors); the finite record
+            # that follows is judged as usual
+            nv = np.array(np.asarray(s.values, dtype=float), copy=True)
+            nv[int(op['at'] * (len(nv) - 1))] = op['value']
+            mutate('reset_values(non-finite)', s.reset_values, nv)
+            try:
+                s.smooth_fa_spectrum
+            except Exception as e:      # noqa
+                ctx.observe('non-finite-record-read-raised(%s)' % type(e).__name__)
+            back = np.where(np.isfinite(nv), nv, 0.0) + op.get('shift', 0.0)
+            mutate('reset_values', s.reset_values, back)
         elif name in ('gen', 'generate'):
             band = band_obj(op.get('band'), op.get('band_form', 'py'))
             if name == 'generate':
@@ -1695,6 +2050,7 @@ def run_history_case(eqsig, ctx, c):
                 t = targets_in_form(op['targets'], op.get('form'))
                 caller.append((t, _snap(t)))
             mutate('set:' + op['via'], setattr, s, op['via'], t)
+            _stored_targets(ctx, s, t, op['via'])
         elif name == 'by_range':
             mutate('by_range', s.set_smooth_fa_frequecies_by_range, _limits(op['limits'], op.get('form')), op['n_points'])
         elif name == 'dep_range':
@@ -1734,7 +2090,8 @@ def run_history_case(eqsig, ctx, c):
             rt, scale = _rt_of(s)
             if op.get('seed') is None:
                 rec = _GEN.get(s)
-                coherent = rec is not None and bool(s._cached_smooth_fa) and s._fa_spectrum is rec['fa_obj'] and s._smooth_fa_freqs is rec['tg_obj']
+                coherent = rec is not None and not rec.get('stale') and bool(s._cached_smooth_fa) and bool(s._cached_fa) \
+                    and s._fa_spectrum is rec['fa_obj'] and s._smooth_fa_freqs is rec['tg_obj']
                 if coherent and 5 <= float(rec['band']) <= 100:
                     _konno_custom(eqsig, ctx, s, rec['band'], op.get('form'), op.get('style'), np.array(rec['result'], copy=True), scale, rt)
                 else:
@@ -1756,11 +2113,21 @@ def run_history_case(eqsig, ctx, c):
                 elif op['how'] == 'reset-from-values':
                     tw = cls(np.zeros(len(np.asarray(s.values))), s.dt, smooth_fa_freqs=s.smooth_fa_freqs)
                     tw.reset_values(s.values)
-                elif op['how'] in ('deepcopy', 'deepcopy+mutate'):
-                    tw = copy.deepcopy(s)               # a warm object copied by the user: its memo travels with it
-                    rec = _GEN.get(s)
-                    if rec is not None and s._fa_spectrum is rec['fa_obj'] and s._smooth_fa_freqs is rec['tg_obj']:
-                        _GEN[tw] = dict(rec, fa_obj=tw._fa_spectrum, tg_obj=tw._smooth_fa_freqs)   # harness book-keeping only
+                elif op['how'] in PROTOCOLS or op['how'] == 'deepcopy+mutate':
+                    # a Python object protocol applied to the object in whatever cache state it is in
+                    tw = s
+                    for step in PROTOCOLS.get(op['how'], ('deepcopy',)):
+                        src = tw
+                        if step == 'copy':
+                            tw = copy.copy(src)
+                        elif step == 'deepcopy':
+                            tw = copy.deepcopy(src)
+                        else:
+                            tw = pickle.loads(pickle.dumps(src, protocol=int(step[1:])))
+                        adopt(tw, src)                  # harness book-keeping only
+                    ctx.observe('protocol:%s(source %s)' % (op['how'], _cache_state(s)))
+                    if np.shares_memory(np.asarray(tw.values), np.asarray(s.values)):
+                        ctx.observe('protocol-copy-shares-the-value-buffer(%s)' % op['how'])
                     if op['how'] == 'deepcopy+mutate':
                         tw.reset_values(np.asarray(tw.values)[::-1] * 0.5)
                 elif op['how'] == 'interp':
@@ -1772,12 +2139,16 @@ def run_history_case(eqsig, ctx, c):
                     tw = cls(np.real(back.values), back.dt, smooth_fa_freqs=np.array(s.smooth_fa_freqs, copy=True))
                 else:
                     tw = cls(values, c['dt'], smooth_fa_freqs=s.smooth_fa_freqs)
-                ok, r = _call(ctx, 'signal.smooth_fa_spectrum==weighted-mean', 'Signal.smooth_fa_spectrum', lambda: tw.smooth_fa_spectrum)
-                if ok:
-                    held.append((r, np.array(r, copy=True)))
+                then = op.get('then', 'read-copy')
+                for who in {'read-copy': (tw,), 'read-orig-then-copy': (s, tw), 'read-copy-then-orig': (tw, s), 'none': ()}[then]:
+                    ok, r = _call(ctx, 'signal.smooth_fa_spectrum==weighted-mean', 'Signal.smooth_fa_spectrum', lambda: who.smooth_fa_spectrum)
+                    if ok:
+                        held.append((r, np.array(r, copy=True)))
                 ctx.observe('history-op:twin')
                 if op.get('switch'):
-                    s = tw
+                    s, alt = tw, s
+                else:
+                    alt = tw
             except Exception as e:      # noqa
                 ctx.exception('signal.smooth_fa_spectrum==weighted-mean', _wit('twin construction'), e)
     if held:
@@ -1919,6 +2290,7 @@ def run_case(eqsig, ctx, case):
 
 
 N_CASES = {'quick': (1440, 480, 320), 'thorough': (28800, 9600, 6400)}    # (func, signal, history) cases over all shards
+N_PROTOCOL = {'quick': 256, 'thorough': 5120}                             # object-protocol histories over all shards
 LONG_N = 70000                                                            # > 2**16 samples -> 65536 Fourier bins
 LARGE_SIGNAL_N = 170000                                                   # 131072 bins x the default 50 smoothing frequencies > 2**22
 LONG_N_FUNC = 140000                                                      # -> 131072 Fourier bins (> 2**16 bins)
@@ -1956,6 +2328,10 @@ def run_shard(ctx):
             plan.append('history')
         else:
             plan.append('func')
+    n_proto = N_PROTOCOL[ctx.tier] // ctx.nshards
+    step = max(1, len(plan) // max(1, n_proto))
+    for j in range(n_proto):
+        plan.insert(min(len(plan), j * (step + 1) + 1), 'protocol')
     if ctx.tier == 'quick':
         if ctx.shard % 4 == 0:
             plan.insert(3, 'long-func')
@@ -1990,6 +2366,8 @@ def run_shard(ctx):
             case, cls = gen_signal_case(rng)
         elif kind == 'history':
             case, cls = gen_history_case(rng)
+        elif kind == 'protocol':
+            case, cls = gen_protocol_case(rng)
         elif kind == 'long-func':
             case, cls = gen_func_case(rng, long_n=LONG_N_FUNC)
         elif kind == 'long-signal':
